@@ -2078,7 +2078,7 @@ class Mailbox:
             #       delete all of the ones flagged \Delete, only the ones
             #       that are flagged and whose uid is in the list
             #       `uid_msg_set`.
-            if uid_msg_set:
+            if uid_msg_set is not None:
                 new_to_delete = []
                 new_uids_to_delete = []
                 for uid in uid_msg_set:
